@@ -66,8 +66,13 @@ def processors(draw):
     typ = draw(st.sampled_from(["CCD", "CMOS", "MKID", "APD"]))
     groups = {}
     names = draw(st.lists(_name, min_size=1, max_size=4, unique=True))
+    # a model name only has to be unique inside its group: the same name may occur again in another group
+    # (the key carries the group), possibly with another enabled flag and other arguments
+    if draw(st.booleans()):
+        names = names + [draw(st.sampled_from(names)) for _ in range(draw(st.integers(1, 2)))]
     for i, nm in enumerate(names):
-        g = draw(st.sampled_from(list(GROUP_ORDER)))
+        free = [g for g in GROUP_ORDER if nm not in [m["name"] for m in groups.get(g, [])]]
+        g = draw(st.sampled_from(free))
         args = {a: draw(st.integers(0, 9)) for a in draw(st.lists(_name, min_size=1, max_size=3, unique=True))}
         args["tag"] = nm
         groups.setdefault(g, []).append({"name": nm, "func": "vprobes.models.trace", "enabled": draw(st.sampled_from([True, True, False])), "arguments": args})
@@ -362,9 +367,14 @@ def body_disabled(case, rec):
     if not keys:
         rec.exclude("no_disabled_model")
         return
+    def _twin_enabled(k):
+        nm = k.split(".")[2]
+        return any(m["name"] == nm and m["enabled"] for g, ms in ps["pipeline"]["groups"].items() if g != k.split(".")[1] for m in ms)
+
+    keys.sort(key=lambda km: not _twin_enabled(km[0]))
     key = keys[0][0]
     rec.nt()
-    rec.cls("disabled_model_argument", f"entry:{case['entry']}")
+    rec.cls("disabled_model_argument", f"entry:{case['entry']}", "same_name_enabled_elsewhere" if _twin_enabled(key) else "unique_name")
     proc = build_processor(ps)
     P.reset()
 
